@@ -356,7 +356,8 @@ func genC20(t *rapid.T) *C20Case {
 			c.Kind = kind
 			c.Deep = true
 		case "redefined-const":
-			f.Tops = append([]*Top{{K: "const", Const: &Const{Name: "RE_CONST", Val: []string{"1"}}}}, f.Tops...)
+			firstVal := rapid.SampledFrom([][]string{{"1"}, {"RE_CONST"}, {"FOO", "+", "1"}, {"RE_CONST", "+", "1"}}).Draw(t, "firstval")
+			f.Tops = append([]*Top{{K: "const", Const: &Const{Name: "RE_CONST", Val: firstVal}}}, f.Tops...)
 			pos := rapid.IntRange(1, len(f.Tops)).Draw(t, "constpos")
 			top := &Top{K: "const", Const: &Const{Name: "RE_CONST", Val: []string{"2"}}, Inj: true}
 			f.Tops = append(f.Tops[:pos], append([]*Top{top}, f.Tops[pos:]...)...)
@@ -399,11 +400,11 @@ func genC20(t *rapid.T) *C20Case {
 			name := names[rapid.IntRange(0, len(names)-1).Draw(t, "clashname")]
 			switch kind {
 			case "text-name-clash":
-				top := &Top{K: "text", Text: &TextStmt{Name: name, Val: &TextVal{Lit: &StrLit{Parts: []string{"user text"}}}}, Inj: true}
+				top := &Top{K: "text", Text: &TextStmt{Name: name, Scope: rapid.SampledFrom([]string{"", "global", "local"}).Draw(t, "clashscope"), Val: &TextVal{Lit: &StrLit{Parts: []string{"user text"}}}}, Inj: true}
 				pos := rapid.IntRange(0, len(f.Tops)).Draw(t, "toppos")
 				f.Tops = append(f.Tops[:pos], append([]*Top{top}, f.Tops[pos:]...)...)
 			case "movement-name-clash":
-				top := &Top{K: "movement", Movement: &Movement{Name: name, Steps: []*Step{{Name: "walk_up"}}}, Inj: true}
+				top := &Top{K: "movement", Movement: &Movement{Name: name, Scope: rapid.SampledFrom([]string{"", "global", "local"}).Draw(t, "clashscope"), Steps: []*Step{{Name: "walk_up"}}}, Inj: true}
 				pos := rapid.IntRange(0, len(f.Tops)).Draw(t, "toppos")
 				f.Tops = append(f.Tops[:pos], append([]*Top{top}, f.Tops[pos:]...)...)
 			case "label-clash-sublabel":
@@ -417,12 +418,14 @@ func genC20(t *rapid.T) *C20Case {
 				insertStmt(b, 0, &Stmt{K: "label", Label: &LabelS{Name: name}, Inj: true})
 				c.Deep = !isScriptName(f, mm[1])
 			case "label-clash-text":
-				scripts := f.Scripts()
-				if len(scripts) == 0 {
+				// in a script or in an inline map script
+				enames, eblocks := EntryBlocks(f)
+				if len(enames) == 0 {
 					continue
 				}
-				sc := scripts[rapid.IntRange(0, len(scripts)-1).Draw(t, "script")]
-				insertStmt(sc.Body, 0, &Stmt{K: "label", Label: &LabelS{Name: name}, Inj: true})
+				en := enames[rapid.IntRange(0, len(enames)-1).Draw(t, "script")]
+				insertStmt(eblocks[en], 0, &Stmt{K: "label", Label: &LabelS{Name: name}, Inj: true})
+				c.Deep = !isScriptName(f, en)
 			}
 			c.Kind = kind
 		}
